@@ -105,22 +105,40 @@ func opScanSeq(r *rand.Rand, n int, tier string) {
 		}
 		var b strings.Builder
 		var regions []string
+		lastJunkLen := 0
 		k := 1 + r.Intn(4)
 		b.WriteString(genJunk(r, r.Intn(4), true, false))
+		prevRace := false
 		for j := 0; j < k; j++ {
 			st := b.Len()
-			if r.Intn(3) == 0 {
+			isRace := r.Intn(3) == 0
+			if j > 0 && (isRace != prevRace || (isRace && prevRace)) && r.Intn(2) == 0 {
+				// no junk between a goroutine dump and a race report (either order), or between two race
+				// reports: the dump must end at the separator line, which starts the next region
+				// (two goroutine dumps in a row would legitimately be one dump)
+				cur := b.String()
+				cut := len(cur) - lastJunkLen
+				b.Reset()
+				b.WriteString(cur[:cut])
+				st = b.Len()
+			}
+			if isRace {
 				d := g.race()
 				for len(d.Creations) == 0 {
 					d = g.race()
 				}
 				b.WriteString(printRace(d))
 			} else {
-				b.WriteString(printDump(g.dump(1+r.Intn(3), 5), g.variant(), true))
+				v := g.variant()
+				v.Indent, v.BlankIndents = "", false
+				b.WriteString(printDump(g.dump(1+r.Intn(3), 5), v, true))
 			}
+			prevRace = isRace
 			regions = append(regions, fmt.Sprintf("%d:%d", st, b.Len()))
 			// at least one separating junk line, so that the next dump is not a continuation
-			b.WriteString(genJunk(r, 1+r.Intn(4), true, false))
+			jk := genJunk(r, 1+r.Intn(4), true, false)
+			lastJunkLen = len(jk)
+			b.WriteString(jk)
 		}
 		if r.Intn(3) == 0 {
 			b.WriteString("unterminated tail")
